@@ -127,7 +127,7 @@ func c40(r *vkit.Run) {
 		return
 	}
 
-	n := r.N(4000, 60000)
+	n := r.N(2500, 30000)
 	if v := os.Getenv("VSPDY_N"); v != "" { // development only
 		fmt.Sscan(v, &n)
 	}
